@@ -217,7 +217,14 @@ def run_batch(batch, cc='clang', cflags=('-O0',), w2c2=None, w2c2_args=(), timeo
             batch.post_translate(batch, wd)
         with open(os.path.join(wd, 'driver.c'), 'w') as f:
             f.write(gen_driver(batch, extra=driver_extra))
-        rc, err, cmd = compile_driver(wd, cc, cflags, defines=defines, mod_cflags=mod_cflags)
+        link = []
+        if 'gnu-ld' in list(w2c2_args):
+            # data segments were written to the file 'datasegments': link it the way the README describes for GNU ld
+            lr = subprocess.run(['ld', '-r', '-b', 'binary', '-o', 'ds.o', 'datasegments'], cwd=wd, stdout=subprocess.PIPE, stderr=subprocess.PIPE)
+            if lr.returncode != 0:
+                return {'stage': 'ld', 'rc': lr.returncode, 'stderr': lr.stderr.decode(errors='replace')[-2000:], 'done': False}
+            link = [os.path.join(wd, 'ds.o')]
+        rc, err, cmd = compile_driver(wd, cc, cflags, defines=defines, mod_cflags=mod_cflags, link=link)
         if rc == 0 and compile_only:
             return {'stage': 'compile', 'done': True, 'evals': 0, 'nontrivial': 0, 'funcs': len(batch.cases), 'skipped': 0, 'weak': 0, 'traps': 0, 'mismatches': 0, 'mismatch_lines': [], 'crash': None, 'errors': []}
         if rc != 0:
